@@ -8,6 +8,7 @@ import (
 
 	"verifharness/internal/core"
 	"verifharness/internal/engine"
+	"verifharness/internal/sgen"
 )
 
 // xbKinds: absent, false, true, number
@@ -193,7 +194,7 @@ func (n nbCase) schemaKeys(ty string) M {
 
 func init() {
 	register("C05", func(c *engine.Ctx) {
-		c.Rule = "function level: mathutils.NormalizeBounds on every order type of its arguments (presence/kind {absent,false,true,number}^2 x {absent,present}^2 x all weak orderings of the present constants), judged on 9 probe values on, next to and between the constants; emitted code: one numeric field per program in positions required/optional/nullable/definition/nested x integer/number x order types x multipleOf, documents on, next to and between the effective bounds plus absent and null. A case is non-trivial when at least one stated constraint decides its verdict; distinct = distinct (stream, labels, reference verdict, real verdict, document shape)."
+		c.Rule = "function level: mathutils.NormalizeBounds on every order type of its arguments (presence/kind {absent,false,true,number}^2 x {absent,present}^2 x all weak orderings of the present constants), judged on 9 probe values on, next to and between the constants; emitted code: one numeric field per program in positions required/optional/nullable/definition/nested x integer/number x order types x multipleOf, documents on, next to and between the effective bounds plus absent and null; integer fields with FRACTIONAL bounds of both signs in every keyword kind (since fix R11) x integers -4..5. A case is non-trivial when at least one stated constraint decides its verdict; distinct = distinct (stream, labels, reference verdict, real verdict, document shape)."
 		c.Proofs([]string{"GJS.Props.C05"}, []string{
 			"GJS.Props.C05.normLo_spec", "GJS.Props.C05.normHi_spec", "GJS.Props.C05.boundsOK_iff",
 			"GJS.Props.C05.float_bounds_exact", "GJS.Props.C05.int_bounds_exact", "GJS.Props.C05.absent_or_null_unchecked",
@@ -264,6 +265,9 @@ func init() {
 						continue
 					}
 					prop := n.schemaKeys(ty)
+					if pos == PosDefault && !withValidDefault(prop, ty, n.specAccepts) {
+						continue
+					}
 					schema, mk := fieldProgram(pos, prop)
 					var docs []any
 					for _, v := range []float64{0, 1, 2, 3, 4, 5} {
@@ -284,12 +288,53 @@ func init() {
 				}
 			}
 		}
+		// fractional bounds on INTEGER fields (in scope since fix R11): every keyword kind, both signs, alone and paired
+		fracs := []float64{-2.5, -1.5, -0.5, 0.5, 1.5, 2.25}
+		for _, pos := range AllPositions {
+			for _, fa := range fracs {
+				for _, kw := range []string{"minimum", "maximum", "exclusiveMinimum", "exclusiveMaximum", "minimum+xbool", "maximum+xbool", "pair"} {
+					prop := M{"type": "integer"}
+					switch kw {
+					case "minimum+xbool":
+						prop["minimum"], prop["exclusiveMinimum"] = fa, true
+					case "maximum+xbool":
+						prop["maximum"], prop["exclusiveMaximum"] = fa, true
+					case "pair":
+						prop["minimum"], prop["exclusiveMaximum"] = fa, fa+2.5
+					default:
+						prop[kw] = fa
+					}
+					if pos == PosDefault {
+						ok := false
+						for _, d := range []int{1, -1, 2, -2, 3, -3, 0} {
+							if sgen.LocalValid(prop, d) {
+								prop["default"] = d
+								ok = true
+								break
+							}
+						}
+						if !ok {
+							continue
+						}
+					}
+					schema, mk := fieldProgram(pos, prop)
+					var docs []any
+					for v := -4; v <= 5; v++ {
+						docs = append(docs, mk(v, false))
+					}
+					pcs = append(pcs, baseCase("c05-fractional-int", schema, docs, "integer", string(pos), "fractional-bound"))
+				}
+			}
+		}
 		// multipleOf: integral on integers, dyadic on numbers (F05)
 		for _, pos := range AllPositions {
 			for _, m := range []any{1, 2, 3, 5, 7} {
 				prop := M{"type": "integer", "multipleOf": m}
 				if c.R.P(0.5) {
 					prop["minimum"] = -6
+				}
+				if pos == PosDefault && !withValidDefault(prop, "integer", func(v float64) bool { return sgen.LocalValid(prop, v) }) {
+					continue
 				}
 				schema, mk := fieldProgram(pos, prop)
 				var docs []any
@@ -298,8 +343,12 @@ func init() {
 				}
 				pcs = append(pcs, baseCase("c05-multiple-int", schema, docs, "integer", string(pos), "multipleOf"))
 			}
-			for _, m := range []any{0.5, 0.25, 2, 1.5, 0.125} {
+			// every integral and dyadic step, as integer and as float literal (1 and 1.0 are the same JSON number)
+			for _, m := range []any{0.5, 0.25, 2, 1.5, 0.125, 1, 1.0, 3, 4, 8, 0.75, 2.5} {
 				prop := M{"type": "number", "multipleOf": m}
+				if pos == PosDefault {
+					prop["default"] = 0
+				}
 				schema, mk := fieldProgram(pos, prop)
 				var docs []any
 				for _, v := range []float64{-3, -1.5, -0.75, -0.5, 0, 0.125, 0.25, 0.375, 0.5, 0.75, 1, 1.5, 2, 2.25, 3, 4.5, 6} {
@@ -324,3 +373,23 @@ func init() {
 // equivalentNB: the model keeps `exclusive=true` next to a nil bound exactly as the code does; this only
 // normalises the textual form of the numbers.
 func equivalentNB(a, b string) bool { return a == b }
+
+// withValidDefault puts into prop a default that satisfies prop's own constraints (judged by ok) and is not the
+// Go zero value where possible (so that "the absent field is checked as 0" and "gets the default" differ).
+func withValidDefault(prop M, ty string, ok func(v float64) bool) bool {
+	cands := []float64{3, 2, 4, 1, 5, 6, 7, 10, 14, 15, 21, 35, -5, -6, 0}
+	if ty == "number" {
+		cands = append([]float64{2.5, 1.5, 3.5, 0.5, 4.5}, cands...)
+	}
+	for _, cand := range cands {
+		if ok(cand) {
+			if cand == float64(int(cand)) {
+				prop["default"] = int(cand)
+			} else {
+				prop["default"] = cand
+			}
+			return true
+		}
+	}
+	return false
+}
